@@ -108,6 +108,17 @@ Theorem C12_ellipsoid_spec : forall spatial ndim r c mats miss, (r <= 3)%nat ->
 Proof. exact ellipsoid_ok_spec. Qed.
 Print Assumptions C12_ellipsoid_spec.
 
+(* "the entries not flagged missing" (present, used by C12_sphere / C12_ellipsoid / C12_ellipsoid_spec): with one flag per
+   row it is exactly the rows whose flag is false.  DOMAIN NOTE: for a mask of another length numpy raises IndexError
+   (boolean index of the wrong size) while keep_present truncates (keep_present_short in SylvesterLemmas.v); the
+   harness never generates such a mask and structure validation rejects it in a store, so the model is used only
+   under the length hypothesis of this theorem. *)
+Theorem C12_present_spec : forall (miss : list bool) (rows : list matrix) r,
+  length miss = length rows ->
+  (In r (present (Some miss) rows) <-> exists i, nth_error miss i = Some false /\ nth_error rows i = Some r).
+Proof. intros miss rows r. exact (keep_present_In miss rows r). Qed.
+Print Assumptions C12_present_spec.
+
 (* non-vacuity of the five theorems above: the hypotheses hold for concrete matrices on which the
    booleans take both values; an explicit vector with x^T m x <= 0 for each rejected one
    (diag(1,0): e2 gives 0; [[1,2],[2,1]]: (1,-1) gives -2; diag(1,1,0): e3 gives 0), and the
@@ -121,7 +132,8 @@ Example C12_sylvester_nonvacuous :
   pos_def 3 [[1; 0; 0]; [0; 1; 0]; [0; 0; 0]] = false /\ qform 3 [[1; 0; 0]; [0; 1; 0]; [0; 0; 0]] [0; 0; 1] = 0 /\
   pos_def 2 [[1]; [0; 1]] = true /\ symmetric 2 [[1]; [0; 1]] = true /\
   ellipsoid_ok 2 3 2 2 [[[2; -1]; [-1; 2]]; [[1; 0]; [0; 0]]] (Some [false; true]) = true /\
-  ellipsoid_ok 2 3 2 2 [[[2; -1]; [-1; 2]]; [[1; 0]; [0; 0]]] None = false.
+  ellipsoid_ok 2 3 2 2 [[[2; -1]; [-1; 2]]; [[1; 0]; [0; 0]]] None = false /\
+  present (Some [false; true; false]) [[[1]]; [[0]]; [[2]]] = [[[1]]; [[2]]].
 Proof. vm_compute. repeat split. Qed.
 
 (* dispatch: validate_data raises iff an enabled validator whose property is declared fails;
